@@ -505,3 +505,98 @@ read_group_of_read = Contract(
     assumptions=['pysam tag accessors through the record stub; the sample tag of the chosen format is present (set by the tagger)'],
 )
 UNITS.append(read_group_of_read)
+
+
+# ------------------------------------------------------------------------------ the gate of MoleculeIterator.__iter__: what happens to a pair
+# before assignment.  With default options nothing is skipped; an invalid fragment is emitted as a molecule of its own when
+# rejects are kept (yield_invalid) and counted as deleted - never assigned - when they are not: "--no_rejects removes exactly
+# the invalid fragments".
+def _gate_block(f):
+    import ast
+    body = None
+    for n in ast.walk(f):
+        if isinstance(n, ast.For) and 'matePairIterator' in ast.unparse(n.iter):
+            body = n.body
+            break
+    if body is None:
+        return []
+    out, started = [], False
+    for st in body:
+        src = ast.unparse(st)
+        if not started and isinstance(st, ast.If) and 'skip_contigs' in ast.unparse(st.test):
+            started = True
+        if started:
+            if isinstance(st, ast.Assign) and src.startswith('added = '):
+                break
+            out.append(st)
+    return out
+
+
+def gate_setup(eng):
+    eng.ghost.clear()
+    eng.ghost['made'] = []
+    eng.spec_env['GHOST'] = eng.ghost
+    valid = named(BOOL, 'fragment_is_valid')
+    eng.spec_env['VALID'] = valid
+
+    def frag_class(e, a, k, n):
+        o = Obj('GateFragment', {'reads': a[0]})
+        e.ghost['fragment'] = o
+        return o
+
+    def mol_class(e, a, k, n):
+        o = Obj('GateMolecule', {'fragment': a[0], 'finalised': False})
+        e.ghost['made'].append(o)
+        return o
+    stubs.STUBS['GateFragment'] = {'methods': {'is_valid': lambda e, o: valid}, 'props': {}, 'setters': {}}
+    stubs.STUBS['GateMolecule'] = {'methods': {'__finalise__': lambda e, o: o.attrs.__setitem__('finalised', True)}, 'props': {}, 'setters': {}}
+    eng.spec_env['FRAGCLS'] = Builtin('fragment_class', frag_class)
+    eng.spec_env['MOLCLS'] = Builtin('molecule_class', mol_class)
+
+
+def gate_self(eng, name):
+    d = named(INT, 'deleted_before')
+    eng.spec_env['DELETED0'] = d
+    return Obj('MoleculeIterator', {'skip_contigs': set(), 'min_mapping_qual': None, 'perform_qflag': False,
+                                    'fragment_class': eng.spec_env['FRAGCLS'], 'fragment_class_args': {},
+                                    'molecule_class': eng.spec_env['MOLCLS'], 'molecule_class_args': {},
+                                    'yield_invalid': named(BOOL, 'yield_invalid'),
+                                    'every_fragment_as_molecule': named(BOOL, 'every_fragment_as_molecule'),
+                                    'deleted_fragments': d},
+               info=eng.loader.classref(FIT, 'MoleculeIterator'))
+
+
+def gate_reads(eng, name):
+    r1 = stubs.make_read(eng, 'R1', tags={}, closed=True)
+    r2 = stubs.make_read(eng, 'R2', tags={}, closed=True)
+    return [r1, r2]
+
+
+gate = Contract(
+    PROP, FIT + '::MoleculeIterator.__iter__', name='MoleculeIterator.__iter__[gate before assignment, default options]',
+    block=_gate_block,
+    params={'self': gate_self, 'reads': gate_reads, 'R1': lambda e, n: None, 'R2': lambda e, n: None},
+    setup=gate_setup,
+    yields=None,
+    ensures={
+        'the_fragment_is_built_from_the_pair': 'GHOST["fragment"].reads[0] is reads[0] and GHOST["fragment"].reads[1] is reads[1]',
+        'an_invalid_fragment_is_emitted_alone_iff_rejects_are_kept':
+            'implies(not VALID, len(Y) == (1 if self.yield_invalid else 0) and '
+            'all(m.fragment is GHOST["fragment"] and m.finalised for m in Y) and '
+            'self.deleted_fragments == DELETED0 + (0 if self.yield_invalid else 1))',
+        'a_valid_fragment_is_neither_dropped_nor_counted_deleted_here':
+            'implies(VALID, self.deleted_fragments == DELETED0 and len(Y) == (1 if self.every_fragment_as_molecule else 0) and '
+            'all(m.fragment is GHOST["fragment"] and m.finalised for m in Y))',
+    },
+    raises={},
+    assumptions=['default options: no skipped contigs, no mapping-quality threshold, no qflag digestion; fragment / molecule '
+                 'classes through recording stubs (is_valid an arbitrary verdict)'],
+)
+
+
+def _gate_pre(eng, fr):
+    fr.env['R1'], fr.env['R2'] = fr.env['reads'][0], fr.env['reads'][1]
+
+
+gate.pre_state = _gate_pre
+UNITS.append(gate)
